@@ -19,7 +19,7 @@ import simos
 import simsql
 from core import RunResult
 
-SUFFIXES = ("fasta", "fa", "txt", "json", "tsv")
+SUFFIXES = ("fasta", "fa", "txt", "json", "tsv", "fasta", "fa.gz")
 
 
 def md5hex(data):
@@ -42,7 +42,7 @@ def _id_pool(rng, suffix, idclass):
     stems.append(rng.choice(["a", "b"]) + stems[1])
     stems.append("".join(rng.choice("ab") for _ in range(rng.randint(1, 3))))
     if idclass == "suffix-text":
-        stems += [f"{suffix}1", f"x_{suffix}", f"a{suffix}", suffix]
+        stems += [f"{suffix}1", f"x_{suffix}", f"a{suffix}", suffix, f"a.{suffix}.b", f"A.{suffix.upper()}", f"b.{suffix}.gz"]
     elif idclass == "dotted":
         stems += ["x.1", "x.2", "a.b"]
     elif idclass == "wild":
@@ -136,6 +136,8 @@ def gen(rng, tier, index):
         "mode": mode,
         "ops": ops,
         "dir_order": rng.choice(["sorted", "reverse", "s%d" % rng.randint(0, 9)]),
+        # stores made by calling the class with the mode as a string, not through open_data_store
+        "ctor": rng.random() < 0.3,
     }
 
 
@@ -194,7 +196,7 @@ class Store:
         from cogent3.app.io import open_data_store
 
         kw = {"suffix": self.suffix} if self.backend == "dir" else {}
-        self.ds = open_data_store(self.path, mode=mode, **kw)
+        self.ds = self._make(mode, kw)
         self.mode = mode
         if self.backend != "dir":
             self.ds.db  # connect now (locks the store, as first use would)
@@ -211,7 +213,21 @@ class Store:
         if self.backend == "sqlite" and not os.path.exists(self.path):
             return None
         kw = {"suffix": self.suffix} if self.backend == "dir" else {}
-        return open_data_store(self.path, mode="r", **kw)
+        n0 = self.sim.ncalls
+        ob = self._make("r", kw)
+        self.ro_open_calls = self.sim.ncalls - n0
+        return ob
+
+    def _make(self, mode, kw):
+        from cogent3.app.io import open_data_store
+
+        if self.plan.get("ctor") and self.backend != "sqlite-mem":
+            from cogent3.app.data_store import DataStoreDirectory
+            from cogent3.app.sqlite_data_store import DataStoreSqlite
+
+            cls = DataStoreDirectory if self.backend == "dir" else DataStoreSqlite
+            return cls(self.path, mode=mode, **kw)
+        return open_data_store(self.path, mode=mode, **kw)
 
     def key_of_member(self, unique_id, completed):
         uid = str(unique_id)
@@ -362,6 +378,10 @@ def run(plan, tier="quick") -> RunResult:
     idclass = plan["idclass"]
     replay = plan
     res.config = "with-restart" if any(o["op"] == "restart" for o in plan["ops"]) else "single-session"
+    if plan.get("ctor"):
+        res.probe("store-made-by-class-constructor")
+    if "." in plan["suffix"]:
+        res.probe("compressed-store-suffix")
     nontrivial = False
     n_viol = 0
     try:
@@ -423,8 +443,13 @@ def run(plan, tier="quick") -> RunResult:
                         sql.close_all()
                         sql.pid += 1
                         simos.set_pid(sql.pid)
+                        n_open0 = sim.ncalls
                         try:
                             store.open(op["mode"])
+                            if op["mode"] == "r" and backend == "dir" and sim.ncalls != n_open0:
+                                res.add(f"C13.readonly-mutated/{be}:open",
+                                        f"opening the store read-only issued {sim.ncalls - n_open0} mutating "
+                                        f"file-system calls: {sim.event_lines(False)[-4:]}", replay)
                         except OSError as e:
                             # documented: a locked SQLite store refuses mode w
                             if be == "sqlite" and op["mode"] == "w" and "locked" in str(e):
@@ -549,6 +574,10 @@ def run(plan, tier="quick") -> RunResult:
                     res.probe("live-handle-not-observed")
                 if backend != "sqlite-mem":
                     ob = store.observer()
+                    if ob is not None and backend == "dir" and getattr(store, "ro_open_calls", 0):
+                        res.add(f"C13.readonly-mutated/{be}:open",
+                                f"opening a fresh read-only handle issued {store.ro_open_calls} mutating "
+                                f"file-system calls: {sim.event_lines(False)[-4:]}", replay)
                     if ob is not None:
                         fresh = observe(store, ob)
                         if hasattr(ob, "close"):
